@@ -30,6 +30,8 @@ def run_disk(lcfg, func, a):
     return h.scenario(fsm.DiskFS, [a['c1'], a['c2']], 1, -1)
   if func == 'empty_body':
     return h.scenario_empty_body(fsm.DiskFS, [a['c1']] if a['c1'] >= 0 else [])
+  if func == 'foreign':
+    return h.scenario_foreign(fsm.DiskFS, a['keep'], a['repair'])
   if func == 'cifar1':
     return h.scenario_cifar(fsm.DiskFS, [a['c1']], a['cut'])
   return h.scenario_cifar(fsm.DiskFS, [a['c1'], a['c2']], 1)
@@ -49,7 +51,7 @@ def classify(msg):
   return 'other'
 
 
-NAMES = {'cache1': ['c1', 'cut'], 'cache_net': ['net_fail', 'c2'], 'cache2': ['c1', 'c2'], 'cifar1': ['c1', 'cut'], 'cifar2': ['c1', 'c2'], 'empty_body': ['c1']}
+NAMES = {'cache1': ['c1', 'cut'], 'cache_net': ['net_fail', 'c2'], 'cache2': ['c1', 'c2'], 'cifar1': ['c1', 'cut'], 'cifar2': ['c1', 'c2'], 'empty_body': ['c1'], 'foreign': ['keep', 'repair']}
 
 
 def check(run):
@@ -58,14 +60,14 @@ def check(run):
   run.functions += ['datasets.downloads.maybe_download', 'maybe_lzma_decompress', 'validate_file', 'datasets.cifar100.load_split (cache branch)']
   run.trusted += ['CrossHair "Confirmed over all paths"', 'fs model with crash injection (buffered writers: data below 8 KiB stays in memory until flush/close '
                   'and is lost by a crash; rename atomic)', 'requests model: body in 256 KiB blocks, read may fail at a chosen block',
-                  'lzma model: 2-byte header + payload', 'SQLite builder model: CREATE TABLE on open (fails on an existing file), one durable effect per client']
+                  'lzma model: 2-byte header + payload, end of stream after the last byte of the complete file; lzma.open/decompress raise on a short stream, LZMADecompressor returns what it has and sets eof/unused_data', 'SQLite builder model: CREATE TABLE on open (fails on an existing file), one durable effect per client']
   run.assumptions += ['real HTTP semantics and sha256 itself are outside the claim (hash computed for real on concrete payloads)',
                       'crash points: before every file-system effect and every network read']
   run.bounds = {'payload': [LENGTH_NAMES[i] for i in lens], 'crashes': '1 or 2, then a clean call', 'network fault': 'dropped connection at block 0..3, HTTP 403 answer, or none',
-                'partial write': '0..5 bytes kept'}
+                'partial write': '0..5 bytes kept', 'foreign truncated .lzma': 'cut at every stored offset, with and without a later repair'}
   jobs, meta = [], []
   for L in lens:
-    for func in ('cache1', 'cache_net', 'cache2'):
+    for func in ('cache1', 'cache_net', 'cache2', 'foreign'):
       jobs.append((HARNESS, func, timeout, {'C19_LEN': str(L)}))
       meta.append((L, func))
   for func in ('cifar1', 'cifar2', 'empty_body'):
